@@ -61,6 +61,9 @@ func (s *Streamer) binlogPosition() Position {
 //Stream 注册一个处理事务信息函数到Stream中
 func (s *Streamer) Stream(ctx context.Context, sendTransaction SendTransactionFunc) error {
 	s.ctx = ctx
+	// Forget the previous attempt's error channel: if this attempt fails
+	// before the dump starts there is nothing to wait for in Error().
+	s.errChan = nil
 	conn, err := newSlaveConnection(func() (conn dumpConn, e error) {
 		return mysql.NewDumpConn(s.dsn, ctx)
 	})
@@ -86,6 +89,10 @@ func (s *Streamer) Stream(ctx context.Context, sendTransaction SendTransactionFu
 
 //Error 每次使用Stream后需要检测Error
 func (s *Streamer) Error() error {
+	if s.errChan == nil {
+		// No dump was started (Stream failed earlier and said why).
+		return nil
+	}
 	select {
 	case err, ok := <-s.errChan:
 		if ok {
